@@ -52,3 +52,4 @@ def _(self: Ref['mqtt.client.pubsubs.MQTTProtocol'], data: Bytes):
     ensures(any_state(self))
     ensures(self.g_dispatched == old(as_list_bytes(self.g_dispatched)) + frames(old(as_bytes(self._buffer)) + data))
     ensures(self._buffer == rem(old(as_bytes(self._buffer)) + data))
+
